@@ -36,6 +36,7 @@ META = {
 }
 
 WORKERS = int(os.environ.get("VERIF_TLC_WORKERS", "8"))
+TLC_TIMEOUT = int(os.environ.get("VERIF_C12_TLC_TIMEOUT", "1500"))   # raise on an oversubscribed machine
 
 
 def model_check(ctx):
@@ -48,12 +49,13 @@ def model_check(ctx):
         runs = [("ShuffleShardMC", "MC_walk_thorough.cfg"), ("ShuffleShardMC", "MC_walk4_thorough.cfg"),
                 ("ShuffleShardMC", "MC_walk3_thorough.cfg"), ("ShuffleShardMC", "MC_lookback_thorough.cfg"),
                 ("ShuffleShardMC", "MC_lookback4_thorough.cfg"), ("PartitionShardMC", "MC_part_thorough.cfg"),
+                ("PartitionShardMC", "MC_part4_thorough.cfg"),
                 ("ShuffleShardMC", "MC_walk_quick.cfg"), ("ShuffleShardMC", "MC_lookback_quick.cfg"),
                 ("PartitionShardMC", "MC_part_quick.cfg")]
     for module, cfg in runs:
         # vacuity guard (thorough tier): the two configs in which every action can fire
         cov = ctx.tier == "thorough" and cfg in ("MC_lookback_quick.cfg", "MC_part_quick.cfg")
-        r = ctx.tlc("shuffleshard", module, cfg=cfg, timeout=1500, workers=WORKERS, coverage=cov)
+        r = ctx.tlc("shuffleshard", module, cfg=cfg, timeout=TLC_TIMEOUT, workers=WORKERS, coverage=cov)
         if r.violated and r.emitted:
             concretise(ctx, r, cfg)
         ctx.require_tlc_ok(r, cfg)
@@ -77,7 +79,7 @@ def concretise(ctx, r, cfg):
 def record_validate(ctx, part, corrupt=None):
     trace = ctx.path("trace_%s_%d.ndjson" % (part, ctx._nrun))
     conc = trace + ".concrete"
-    env = {"VERIF_TRACE": trace, "VERIF_C12_PART": part, "VERIF_TRACE_CONCRETE": conc}
+    env = {"VERIF_TRACE": trace, "VERIF_C12_PART": "" if part == "all" else part, "VERIF_TRACE_CONCRETE": conc}
     if corrupt:
         env["VERIF_CORRUPT"] = corrupt
     res = ctx.run_harness("c12", "^TestRecord$", env=env, timeout=1200)
@@ -87,7 +89,7 @@ def record_validate(ctx, part, corrupt=None):
     if nev == 0:
         raise verif.Inconclusive("recorder wrote no events")
     r = ctx.tlc("shuffleshard", "ShardHistoryTrace", extra_files={trace: "trace.ndjson"}, workers=1,
-                deadlock=False, timeout=1500, count=False)
+                deadlock=False, timeout=TLC_TIMEOUT, count=False)
     reports = verif.read_ndjson(r.out_path) if r.emitted else []
     malformed = [x for x in reports if x.get("what") == "malformed"]
     if malformed:
@@ -127,7 +129,10 @@ def sig_of(rep, f):
 
 
 def validate_direction(ctx):
-    parts = [x for x in os.environ.get("VERIF_C12_PARTS", "small,large").split(",") if x]   # development knob
+    # quick tier: small and large histories in one recording and one TLC run; thorough: two runs.
+    # VERIF_C12_PARTS (development knob): "small", "large" or "small,large"
+    default = "all" if ctx.tier == "quick" else "small,large"
+    parts = [x for x in os.environ.get("VERIF_C12_PARTS", default).split(",") if x]
     for part in parts:
         res, reports = record_validate(ctx, part)
         if reports:
@@ -156,7 +161,7 @@ def replay_direction(ctx):
     res = ctx.run_harness("c12", "^TestGenCases$", env={"VERIF_CASES": cases, "VERIF_CONCRETE": conc, "VERIF_NCASES": n}, timeout=600)
     if res.get("fatal"):
         raise verif.Inconclusive("case generator: %s" % res["fatal"])
-    r = ctx.tlc("shuffleshard", "ShardReplay", extra_files={cases: "cases.ndjson"}, workers=1, deadlock=False, timeout=1200, count=False)
+    r = ctx.tlc("shuffleshard", "ShardReplay", extra_files={cases: "cases.ndjson"}, workers=1, deadlock=False, timeout=TLC_TIMEOUT, count=False)
     ctx.require_tlc_ok(r, "ShardReplay")
     if r.emitted != n:
         raise verif.Inconclusive("ShardReplay evaluated %d of %d cases" % (r.emitted, n))
